@@ -7,6 +7,6 @@ def run(tier, seed):
         profiles=[("nodisc", 2, 100), ("default", 2, 150), ("limits", 2, 80), ("close", 2, 80), ("async", 2, 50), ("default", 3, 40)],
         thorough_profiles=[("nodisc", 2, 800), ("default", 2, 1200), ("limits", 2, 600), ("close", 2, 800), ("async", 2, 600),
                            ("default", 3, 300), ("async", 3, 200)],
-        families=[("holdcell", 250), ("crosslimit", 250), ("bigclaim", 200), ("dustclose", 150), ("slots", 12)],
-        thorough_families=[("holdcell", 3000), ("crosslimit", 3000), ("bigclaim", 2000), ("dustclose", 1500), ("slots", 100)],
+        families=[("holdcell", 250), ("crosslimit", 250), ("bigclaim", 200), ("dustclose", 150), ("asyncsign", 100), ("slots", 12)],
+        thorough_families=[("holdcell", 3000), ("crosslimit", 3000), ("bigclaim", 2000), ("dustclose", 1500), ("asyncsign", 1000), ("slots", 100)],
         assumptions=cc.COMMON_ASSUMPTIONS)
